@@ -12,7 +12,11 @@ LEVEL = "exploration"
 RULE = ("Reaction systems are built by construction (vlib/gen_c03.py): 1-8 reactions over <= 8 substance keys dealt "
         "into 1-4 blocks, with catalysts (a key on both sides), inactive reactants/products (also of a species that is "
         "active too), zeroth-order reactions, reverse partners, species in no reaction; rate constants plain / named / "
-        "wrapped in MassAction; values int, Fraction, float (k over 30 decades, c over 12) or sympy symbols.  The "
+        "wrapped in MassAction; values int, Fraction, float (k over 30 decades, c over 12), sympy symbols, or float "
+        "numpy arrays (class 'ndarray': every concentration an array with one entry per state, 2-4 states; named rate "
+        "constants and feed terms optionally arrays too; every entry is compared with the per-state reference and the "
+        "caller's arrays must be unchanged after each call).  Substances are handed over as key strings, Substance "
+        "objects or Species objects with phase_idx 0-3 (directly or from the key's suffix '(s)' '(l)' '(g)').  The "
         "expected rates are computed from the JSON description with Fractions (or sympy arithmetic for symbols): "
         "net_i = prod - reac + inact_prod - inact_reac, q = k*prod(c^nu_active), dc_i/dt = sum net_i*q (+ F*(c_feed-c)). "
         "Non-trivial = >= 2 reactions touching one species, or a species on both sides of a reaction, or an inactive "
@@ -20,6 +24,8 @@ RULE = ("Reaction systems are built by construction (vlib/gen_c03.py): 1-8 react
 ASSUMPTIONS = ["float results are compared to the exact rational value of the same float inputs with tolerance "
                "1e-12 * sum(|terms|); int/Fraction and symbolic results (after sympy.expand) exactly",
                "a substance missing from ReactionSystem.rates() (it occurs in no reaction) is read as rate 0",
+               "class 'ndarray': a result may be an array of shape (m,) or a scalar (the same in every state); the "
+               "shape itself is not part of the property",
                "sympy arithmetic/expand is trusted for the symbolic class"]
 
 # Each term net*k*prod(c^nu) is produced by <= order+2 multiplications and <= 3 pow() calls, each within ~1 ulp
@@ -53,8 +59,26 @@ def _to_fraction(x):
     return None
 
 
+def _state_values(got, m):
+    """Entries of an array-valued result (shape (m,)), a scalar counts for every state; None for any other shape."""
+    import numpy as np
+    if isinstance(got, np.ndarray):
+        if got.ndim == 0:
+            return [got.item()] * m
+        if got.shape != (m,):
+            return None
+        return list(got)
+    return [got] * m
+
+
 def same(cls, got, exp, scale):
     """True iff `got` (returned by chempy) is the expected value `exp` for number class `cls`."""
+    if isinstance(cls, tuple):               # ("ndarray", m): state by state, each like class 'float'
+        m = cls[1]
+        gs = _state_values(got, m)
+        if gs is None:
+            return False
+        return all(same("float", g, e, sc) for g, e, sc in zip(gs, G.states_of(exp, m), G.states_of(scale, m)))
     if cls == "sym":
         import sympy
         try:
@@ -92,7 +116,11 @@ def cmp_dict(ctx, cls, got, exp, scale, clause, keys, missing_is_zero=False, **d
 
 def _labels(case, ctx):
     lbls, s = G.system_labels(case["sys"])
-    ctx.label("cls=" + case["cls"], *lbls)
+    ctx.label("cls=" + case["cls"], "subs=" + case.get("subs_kind", "keys"), *lbls)
+    if case.get("phase") and any(case["phase"].values()):
+        ctx.label("phase_idx>0")
+    if any(G.is_arr(r["k"]) for r in case["sys"]["rxns"]):
+        ctx.label("k=ndarray")
     kt = set(r["ktype"] for r in case["sys"]["rxns"])
     for t in sorted(kt - {"plain"}):
         ctx.label("ktype=" + t)
@@ -104,7 +132,36 @@ def _refs(case, conc_key="conc"):
     cls = case["cls"]
     conc = {k: G.refval(n, cls) for k, n in case[conc_key].items()}
     ks = [G.refval(r["k"], cls) for r in case["sys"]["rxns"]]
+    if cls == "ndarray":
+        cls = ("ndarray", case["m"])
     return cls, conc, ks
+
+
+def _build_system(case, rxn_objs=None, order=None):
+    kind = case.get("subs_kind", "keys")
+    return G.build_system(case["sys"], rxn_objs, order=order, subs_arg="list" if kind == "keys" else kind,
+                          phase=case.get("phase"))
+
+
+class _Unchanged(object):
+    """The caller's arrays in `variables` must still hold what they held before the call (class 'ndarray')."""
+
+    def __init__(self, ctx, variables):
+        import numpy as np
+        self.ctx = ctx
+        self.variables = variables
+        self.before = {k: v.copy() for k, v in variables.items() if isinstance(v, np.ndarray)}
+
+    def check(self, where, **detail):
+        import numpy as np
+        for k in sorted(self.before):
+            now = self.variables[k]
+            if not (isinstance(now, np.ndarray) and now.shape == self.before[k].shape
+                    and np.array_equal(now, self.before[k])):
+                self.ctx.fail("variables_changed_by_call", where=where, key=k, before=self.before[k].tolist(),
+                              after=short(repr(now), 200), **detail)
+                return False
+        return True
 
 
 # ---------------------------------------------------------------------------
@@ -117,6 +174,7 @@ def check_reaction(case, ctx):
     sysd = case["sys"]
     subs = list(sysd["subs"])
     variables = G.native_variables(case)
+    unchanged = _Unchanged(ctx, variables)
     for i, r in enumerate(sysd["rxns"]):
         rx = G.build_reaction(r, i)
         q = G.ref_rate(r, ks[i], conc)
@@ -125,6 +183,8 @@ def check_reaction(case, ctx):
         own = G.rxn_keys(r)
         # (a) default keys: exactly the species of the reaction
         got = rx.rate(dict(variables))
+        if not unchanged.check("Reaction.rate", index=i):
+            return
         if isinstance(got, dict) and set(got) != set(own):
             ctx.fail("rate:key_set", rxn=r, got_keys=sorted(map(str, got)), expected_keys=own)
             return
@@ -132,6 +192,8 @@ def check_reaction(case, ctx):
             return
         # (b) all substance keys asked for: bystanders get zero
         got_all = rx.rate(dict(variables), substance_keys=list(subs))
+        if not unchanged.check("Reaction.rate(substance_keys=...)", index=i):
+            return
         if isinstance(got_all, dict) and set(got_all) != set(subs):
             ctx.fail("rate:key_set_explicit", rxn=r, got_keys=sorted(map(str, got_all)), expected_keys=sorted(subs))
             return
@@ -157,6 +219,9 @@ def _identical(cls, a, b):
     if cls == "sym":
         import sympy
         return sympy.expand(sympy.sympify(a) - sympy.sympify(b)) == 0
+    if isinstance(cls, tuple):
+        import numpy as np
+        return np.array_equal(np.asarray(a), np.asarray(b))
     return a == b
 
 
@@ -170,16 +235,21 @@ def check_system(case, ctx):
     sysd = case["sys"]
     subs = list(sysd["subs"])
     variables = G.native_variables(case)
+    unchanged = _Unchanged(ctx, variables)
     exp, scale = G.ref_system_rates(sysd, ks, conc)
     rxn_objs = [G.build_reaction(r, i) for i, r in enumerate(sysd["rxns"])]
-    rsys = G.build_system(sysd, rxn_objs)
+    rsys = _build_system(case, rxn_objs)
     got = rsys.rates(dict(variables))
+    if not unchanged.check("ReactionSystem.rates"):
+        return
     if isinstance(got, dict) and not set(got) <= set(subs):
         ctx.fail("rates:unknown_key", got_keys=sorted(map(str, got)), substances=subs)
         return
     if not cmp_dict(ctx, cls, got, exp, scale, "rates:value", subs, missing_is_zero=True):
         return
     got_all = rsys.rates(dict(variables), substance_keys=list(subs))
+    if not unchanged.check("ReactionSystem.rates(substance_keys=...)"):
+        return
     if isinstance(got_all, dict) and set(got_all) != set(subs):
         ctx.fail("rates:key_set_explicit", got_keys=sorted(map(str, got_all)), substances=subs)
         return
@@ -188,12 +258,14 @@ def check_system(case, ctx):
     perm = case["perm"]
     if perm != sorted(perm):
         ctx.label("permuted")
-        rsys_p = G.build_system(sysd, rxn_objs, order=perm)
+        rsys_p = _build_system(case, rxn_objs, order=perm)
         got_p = rsys_p.rates(dict(variables))
+        if not unchanged.check("ReactionSystem.rates (reordered)"):
+            return
         if not cmp_dict(ctx, cls, got_p, exp, scale, "rates:value_after_reordering", subs, missing_is_zero=True,
                         perm=perm):
             return
-        if cls != "float" and isinstance(got_p, dict):
+        if cls in ("exact", "sym") and isinstance(got_p, dict):
             # exact arithmetic: the permuted system must give the *same* numbers, not only close ones
             for s in subs:
                 if not _identical(cls, got_p.get(s, 0), got.get(s, 0)):
@@ -214,13 +286,16 @@ def check_reeval(case, ctx):
     sysd = case["sys"]
     subs = list(sysd["subs"])
     rxn_objs = [G.build_reaction(r, i) for i, r in enumerate(sysd["rxns"])]
-    rsys = G.build_system(sysd, rxn_objs)
+    rsys = _build_system(case, rxn_objs)
     v1 = G.native_variables(case)
     v2 = G.native_variables(case, "alt")
 
     def judge(step, variables, conc_ref, ks_ref):
+        unchanged = _Unchanged(ctx, variables)
         exp, scale = G.ref_system_rates(sysd, ks_ref, conc_ref)
         got = rsys.rates(dict(variables))
+        if not unchanged.check("ReactionSystem.rates", step=step):
+            return False
         if not cmp_dict(ctx, cls, got, exp, scale, "reeval:system:" + step, subs, missing_is_zero=True):
             return False
         for i, r in enumerate(sysd["rxns"]):
@@ -230,7 +305,7 @@ def check_reeval(case, ctx):
             sc = None if cls == "sym" else {s_: abs(e[s_]) for s_ in own}
             if not cmp_dict(ctx, cls, rxn_objs[i].rate(dict(variables)), e, sc, "reeval:reaction:" + step, own, index=i):
                 return False
-        return True
+        return unchanged.check("Reaction.rate", step=step)
 
     if not judge("first", v1, conc, ks):
         return
@@ -249,7 +324,7 @@ def check_reeval(case, ctx):
             v3[G.k_name(i)] = G.native(newk)
         else:
             continue
-        ks3[i] = G.refval(newk, cls)
+        ks3[i] = G.refval(newk, case["cls"])
         changed = True
     if changed:
         ctx.label("constants_changed")
@@ -275,16 +350,17 @@ def check_cstr(case, ctx):
     sysd = case["sys"]
     subs = list(sysd["subs"])
     cs = case["cstr"]
-    fr = G.refval(cs["fr"], cls)
-    fc = {s: G.refval(n, cls) for s, n in cs["fc"].items()}
+    fr = G.refval(cs["fr"], case["cls"])
+    fc = {s: G.refval(n, case["cls"]) for s, n in cs["fc"].items()}
     variables = G.native_variables(case)
     variables[FR_KEY] = G.native(cs["fr"])
     fcmap = {}
     for s in sorted(cs["fc"]):
         variables[fc_key(s)] = G.native(cs["fc"][s])
         fcmap[s] = fc_key(s)
+    unchanged = _Unchanged(ctx, variables)
     exp, scale = G.ref_system_rates(sysd, ks, conc, cstr=(fr, fc))
-    rsys = G.build_system(sysd)
+    rsys = _build_system(case)
     participating = set()
     for r in sysd["rxns"]:
         participating.update(G.rxn_keys(r))
@@ -292,6 +368,8 @@ def check_cstr(case, ctx):
     ctx.label("feed=all" if len(fc) == len(subs) else "feed=some")
     # (a) all substance keys asked for
     got_all = rsys.rates(dict(variables), substance_keys=list(subs), cstr_fr_fc=(FR_KEY, dict(fcmap)))
+    if not unchanged.check("ReactionSystem.rates(substance_keys=..., cstr_fr_fc=...)"):
+        return
     if not cmp_dict(ctx, cls, got_all, exp, scale, "cstr:value_explicit_keys", subs, feed=sorted(fc)):
         return
     # (b) default keys (what get_odesys(cstr=True) does)
@@ -300,6 +378,8 @@ def check_cstr(case, ctx):
     got = sut(rsys.rates, dict(variables), cstr_fr_fc=(FR_KEY, dict(fcmap)))
     if is_err(got):
         ctx.fail("cstr:raises", error=repr(got), feed_to_nonparticipating=bool(lonely), lonely=lonely)
+        return
+    if not unchanged.check("ReactionSystem.rates(cstr_fr_fc=...)"):
         return
     if isinstance(got, dict) and not set(got) <= set(subs):
         ctx.fail("cstr:unknown_key", got_keys=sorted(map(str, got)), substances=subs)
@@ -324,7 +404,7 @@ def check_array(case, ctx):
     sysd = case["sys"]
     subs = list(sysd["subs"])
     rxns = sysd["rxns"]
-    rsys = G.build_system(sysd)
+    rsys = _build_system(case)
     nr, ns = len(rxns), len(subs)
     # -- matrices -------------------------------------------------------------
     alt_keys = [subs[i] for i in case["perm"] if i < ns][: max(1, ns - 1)] or subs[:1]
@@ -359,12 +439,15 @@ def check_array(case, ctx):
         return
     from chempy.kinetics.ode import dCdt_list, law_of_mass_action_rates
     conc_list = [G.native(case["conc"][s]) for s in subs]
-    if cls == "float" and case["perm"][:1] != [0]:
+    if (cls == "float" or isinstance(cls, tuple)) and case["perm"][:1] != [0]:
         import numpy as np
-        conc_list = np.array(conc_list, dtype=float)
-        ctx.label("conc=ndarray")
+        conc_list = np.array(conc_list, dtype=float)       # class 'ndarray': shape (ns, m), one row per substance
+        ctx.label("conc=ndarray" if cls == "float" else "conc=2d_ndarray")
     extra = ({},) if any(r["ktype"] == "massaction" for r in rxns) else ()
+    unchanged = _Unchanged(ctx, {"conc": conc_list} if not isinstance(conc_list, list) else dict(enumerate(conc_list)))
     rates = list(law_of_mass_action_rates(conc_list, rsys, *extra))
+    if not unchanged.check("law_of_mass_action_rates"):
+        return
     if len(rates) != nr:
         ctx.fail("law_of_mass_action_rates:length", got=len(rates), expected=nr)
         return
@@ -374,7 +457,10 @@ def check_array(case, ctx):
             ctx.fail("law_of_mass_action_rates:value", rxn=r, got=short(repr(rates[ri]), 200), expected=short(str(q), 200))
             return
     exp, scale = G.ref_system_rates(sysd, ks, conc)
+    rates_before = _Unchanged(ctx, dict(enumerate(rates)))
     f = dCdt_list(rsys, rates)
+    if not (unchanged.check("dCdt_list") and rates_before.check("dCdt_list (rates argument)")):
+        return
     if len(f) != ns:
         ctx.fail("dCdt_list:length", got=len(f), expected=ns)
         return
@@ -389,7 +475,7 @@ SUBCHECKS = [
              rule="Reaction.rate(vars) per reaction: default keys, all substance keys (bystanders 0), and unchanged when "
                   "every concentration other than the active reactants' is replaced",
              tolerances={"float_rel_of_sum_abs_terms": 1e-12}),
-    SubCheck("system", check_system, strategy=G.rate_cases(), quick=900, thorough=60000,
+    SubCheck("system", check_system, strategy=G.rate_cases(), quick=1400, thorough=60000,
              rule="ReactionSystem.rates(vars) with default and explicit substance keys; same after permuting the reaction list",
              tolerances={"float_rel_of_sum_abs_terms": 1e-12}),
     SubCheck("reeval", check_reeval, strategy=G.rate_cases(), quick=500, thorough=30000,
